@@ -120,10 +120,10 @@ def oracle_white(case):
 # ------------------------------------------------------------------ (c) fftnoise
 def fft_cases(tier):
     seed = int(os.environ.get("VERIF_SEED", "1"))
-    reps = 2 if tier == "quick" else 8
+    reps = 3 if tier == "quick" else 10
     for N in range(2, 131):
         for r in range(reps):
-            yield {"N": N, "seed": seed * 100000 + N * 10 + r, "style": ["pos", "zeros", "complex", "garbage"][(N + r) % 4]}
+            yield {"N": N, "seed": seed * 100000 + N * 10 + r, "style": ["pos", "zeros", "complex", "garbage", "zeros_garbage"][(N + r) % 5]}
 
 
 def oracle_fft(case):
@@ -132,7 +132,7 @@ def oracle_fft(case):
     rng = np.random.default_rng(case["seed"])
     half = N // 2
     m = rng.uniform(0.1, 5.0, half + 1)
-    if case["style"] == "zeros":
+    if case["style"] in ("zeros", "zeros_garbage"):
         m[rng.uniform(0, 1, half + 1) < 0.4] = 0.0
     f = np.zeros(N, dtype=complex)
     f[: half + 1] = m
@@ -141,7 +141,7 @@ def oracle_fft(case):
         f[1:Np + 1] *= np.exp(1j * rng.uniform(0, 2 * np.pi, Np))
         if rng.uniform() < 0.5:
             f[0] = -f[0]
-    if case["style"] == "garbage":
+    if case["style"] in ("garbage", "zeros_garbage"):
         f[half + 1:] = rng.standard_normal(N - half - 1) * 100 + 1j * rng.standard_normal(N - half - 1)
     fin = f.copy()
     x = noise.fftnoise(f, rng=np.random.default_rng(case["seed"] + 1))
